@@ -528,6 +528,12 @@ class Unit:
                     edits.append(Edit(prm["span"][0], prm["ty"][0], lambda r, nm=nm: f"{nm}: "))
                     r19.append(nm)
                     self.log("R19", relfile, src, prm["span"][0], f"{path}: `mut {nm}` parameter rebound at function entry")
+        # R20: an async fn without a declared return type gets `-> (r: ())` (the installed Verus silently drops the `ensures` of
+        # async functions that have no named return value)
+        if it.get("is_async") and not it["ret"]:
+            pos = it["where"][0] if it.get("where") else sig_e
+            edits.append(Edit(pos, pos, lambda r: " -> (r: ()) "))
+            self.log("R20", relfile, src, sig_s, f"{path}: async fn without return type given `-> (r: ())`")
         # named return
         if it["ret"]:
             rs, re_ = it["ret"]
